@@ -216,10 +216,11 @@ func runC08(p *Prog, r *Result) {
 	if n := checkRetryCounterReset(p, r, pkg, "R08g"); n == 0 {
 		r.Notef("R08g: fill() keeps no count of empty reads on this tree; the rule is armed by a control under C07")
 	}
-	r.Rule("R08h", "the here-document body reader reads input only with a body pending (doHeredocs tests it before its first read, or every call site does): after a line without one, no byte beyond the newline is asked for, so a finished statement is handed over and not called incomplete (shared with C06 R06o)", 5)
+	r.Rule("R08h", "the here-document body reader reads input only with a body pending (doHeredocs tests it before its first read, or every call site does): after a line without one, no byte beyond the newline is asked for, so a finished statement is handed over and not called incomplete (shared with C06 R06o)", 6)
 	checkBodyReaderNeedsBody(p, r, pkg, "R08h")
 	r.Rule("R08c", "sibling agreement Parse / StmtsSeq: same sequence reset, rune, next, statements, doHeredocs under err == nil", 2)
 	r.Rule("R08e", "every newLit() is followed on every path by endLit(), a discard or an error report, so Incomplete() cannot stay true after a completed statement (shared with C10 R10c)", 15)
+	r.Rule("R08i", "no slice is truncated in place after it was handed to a consumer or while a saved alias is read: the statements InteractiveSeq yielded stay what they were (shared with C10 R10f)", 3)
 	r.Rule("R08d", "every increment of openNodes/openBquotes/openBquoteDbls is followed by its decrement on every path to the exit", 4)
 
 	parser, printer := resetSpecs()
@@ -235,6 +236,11 @@ func runC08(p *Prog, r *Result) {
 		for _, o := range sub.Obls {
 			if o.Rule == "R10c" {
 				o.Rule = "R08e"
+				r.Obls = append(r.Obls, o)
+			}
+			// what an iterator handed out is the consumer's: the batch InteractiveSeq yielded is not reused
+			if o.Rule == "R10f" {
+				o.Rule = "R08i"
 				r.Obls = append(r.Obls, o)
 			}
 		}
@@ -816,6 +822,8 @@ func checkCounters(p *Prog, r *Result, pkg *packages.Package) {
 }
 
 var c08Controls = []Control{
+	{Name: "newline-after-the-last-stop-word-consumed", Rule: "R08h", WantKey: "doHeredocs#nothing is read once the last body is stored", File: "syntax/parser.go",
+		Mutate: ctlReplaceAnywhere("\t\tp.hdocStops = p.hdocStops[:len(p.hdocStops)-1]\n\t}\n\tp.quote = old\n", "\t\tp.hdocStops = p.hdocStops[:len(p.hdocStops)-1]\n\t\tif p.r == '\\n' {\n\t\t\tp.rune()\n\t\t}\n\t}\n\tp.quote = old\n")},
 	{Name: "start-of-input-told-by-the-last-token-position", Rule: "R08a", WantKey: "Parser.pos", File: "syntax/lexer.go",
 		Mutate: ctlReplaceAnywhere("(p.spaced || p.tok == illegalTok || p.stopToken())", "(p.spaced || !p.pos.IsValid() || p.stopToken())")},
 	{Name: "body-reader-reads-without-a-body-pending", Rule: "R08h", WantKey: "letClause#call 1 of doHeredocs", File: "syntax/parser.go",
